@@ -1,0 +1,5 @@
+//go:build !verif
+
+package ast
+
+func verifPoolGate(point string) {}
